@@ -1,6 +1,7 @@
 package main
 
 import (
+	"fmt"
 	"go/ast"
 	"go/token"
 	"reflect"
@@ -173,6 +174,8 @@ func (e *exporter) export(n interface{}) int {
 			case 2:
 				an.Truthy = append(an.Truthy, "Dir=RECV")
 			}
+		case f.Type.Kind() == reflect.Int && name != "Dir":
+			an.Truthy = append(an.Truthy, fmt.Sprintf("%s=%d", name, fv.Int()))
 		case f.Type.Implements(e.nodeIface()):
 			if !isNilNode(fv) {
 				an.Truthy = append(an.Truthy, name)
